@@ -331,7 +331,13 @@ public:
 	if (!old_v) {
 	  _tree.remove(k);
 	} else {
-	  _tree.insert(k, *old_v | v);
+	  Value new_v = *old_v | v;
+	  if (new_v.is_top()) {
+	    // top is never stored
+	    _tree.remove(k);
+	  } else {
+	    _tree.insert(k, new_v);
+	  }
 	}
       }
     }
